@@ -47,7 +47,8 @@ type scanSim struct {
 	opened   int
 	closedBy map[uint64]string
 	renews   int
-	noChoice bool // deliver everything at once (second scan of a "twice" configuration)
+	noChoice bool            // deliver everything at once (second scan of a "twice" configuration)
+	usedIDs  map[uint64]bool // scanner ids the client has presented in a request: it knows them
 }
 
 type scanCfg struct {
@@ -58,7 +59,7 @@ type scanCfg struct {
 	rev         bool
 	nrows       uint32
 	partial     bool
-	twice       bool   // run the same scan twice through the same client (same region objects)
+	twice       bool // run the same scan twice through the same client (same region objects)
 	renew       time.Duration
 	// endings (C14)
 	endKind string // "", close, error, cancel, nomore
@@ -165,7 +166,17 @@ func (s *scanSim) serve(req *pb.ScanRequest, ri int) (*pb.ScanResponse, error) {
 		s.opened++
 	} else {
 		id = req.GetScannerId()
+		if s.usedIDs == nil {
+			s.usedIDs = map[uint64]bool{}
+		}
+		s.usedIDs[id] = true
 		ss = s.open[id]
+		if ss == nil && isClose && s.cfg.endKind == "cancel-at-step" && s.closedBy[id] == "exhausted" {
+			// the context ended while the response that reported the end of the region was
+			// on its way: the client cannot know that the server has closed the scanner
+			// already, and closing it once more is exactly what it should do
+			return nil, errors.New("org.apache.hadoop.hbase.UnknownScannerException")
+		}
 		if ss == nil {
 			s.errs = append(s.errs, fmt.Sprintf("request for unknown scanner %d (closed by %q)", id, s.closedBy[id]))
 			return nil, errors.New("org.apache.hadoop.hbase.UnknownScannerException")
@@ -247,16 +258,17 @@ func (s *scanSim) serve(req *pb.ScanRequest, ri int) (*pb.ScanResponse, error) {
 }
 
 type scanObs struct {
-	got      []string
-	errs     []string
-	open     int
-	sim      *scanSim
-	afterEOF []error
-	endErr   error
-	endSeen  int
-	mutated  string
-	nextN    int
-	second   []string
+	got                []string
+	errs               []string
+	open               int
+	sim                *scanSim
+	afterEOF           []error
+	endErr             error
+	endSeen            int
+	mutated            string
+	nextN              int
+	second             []string
+	startStep, endStep int
 }
 
 func fmtResult(r *hrpc.Result) string {
@@ -595,16 +607,16 @@ func c14Units(thorough bool) []*explore.Unit {
 func init() {
 	register(&Prop{
 		ID: "C06", Level: "model_checking",
-		Technique: "exhaustive enumeration of every server chunking (environment choices of the controlled runtime) for every small table / layout / range / direction, real scanner code against a sorted range-filtered model",
-		Rule: "configurations = every non-empty subset of 3 (thorough 4) row keys from key sets incl. keys ending in 00 and ff x 1-2(3) cells x 1-3(4) regions x every [start,stop) over boundary and non-boundary keys x direction x row limit {1,(2),inf} x partials on/off; for each, EVERY response shape: number of cells per response (0 = heartbeat, once per region scanner), end of region reported with the data or in a separate empty response (once), early more_results=false. Reversed multi-region scans are run twice through the same client. Non-trivial = at least one non-default chunking choice.",
+		Technique:   "exhaustive enumeration of every server chunking (environment choices of the controlled runtime) for every small table / layout / range / direction, real scanner code against a sorted range-filtered model",
+		Rule:        "configurations = every non-empty subset of 3 (thorough 4) row keys from key sets incl. keys ending in 00 and ff x 1-2(3) cells x 1-3(4) regions x every [start,stop) over boundary and non-boundary keys x direction x row limit {1,(2),inf} x partials on/off; for each, EVERY response shape: number of cells per response (0 = heartbeat, once per region scanner), end of region reported with the data or in a separate empty response (once), early more_results=false. Reversed multi-region scans are run twice through the same client. Non-trivial = at least one non-default chunking choice.",
 		Assumptions: []string{"row keys without a run of eight 0xff bytes; reversed scans with explicit start row (as documented)", "heartbeats / deferred end-of-region reports capped at one per region scanner (uncapped the choice tree is infinite)", "default thread schedule; the scanner is sequential apart from asynchronous close requests"},
 		Quick:       120 * time.Second, Thorough: 20 * time.Minute,
 		Units: c06Units,
 	})
 	register(&Prop{
 		ID: "C14", Level: "model_checking",
-		Technique: "the C06 harness with the scan ended at every point (Close, RPC error, cancellation, server-declared end) crossed with every server chunking; server-side scanner table as observer",
-		Rule: "configurations as C06 (3 rows, 1-2 cells, 1-3 regions, 5 ranges, both directions, row limit 1/inf, partials on/off) x ending {none, Close after k Next calls, cancel after k, RPC error on request j, more_results=false on request j while the region scanner is open} for every k,j <= 4 (thorough 7) x lease renewer on/off; every chunking enumerated. Oracle: error/cancellation reported once then io.EOF; Close idempotent; after draining, no region scanner open on the server; no client thread left (the renewer has exited). Non-trivial = at least one non-default chunking choice.",
+		Technique:   "the C06 harness with the scan ended at every point (Close, RPC error, cancellation, server-declared end) crossed with every server chunking; server-side scanner table as observer",
+		Rule:        "configurations as C06 (3 rows, 1-2 cells, 1-3 regions, 5 ranges, both directions, row limit 1/inf, partials on/off) x ending {none, Close after k Next calls, cancel after k, RPC error on request j, more_results=false on request j while the region scanner is open} for every k,j <= 4 (thorough 7) x lease renewer on/off; every chunking enumerated. Oracle: error/cancellation reported once then io.EOF; Close idempotent; after draining, no region scanner open on the server; no client thread left (the renewer has exited). Non-trivial = at least one non-default chunking choice.",
 		Assumptions: []string{"as C06"},
 		Quick:       120 * time.Second, Thorough: 20 * time.Minute,
 		Units: c14Units,
@@ -623,6 +635,11 @@ func bitsSet(m int) int {
 // cells travelling in cellblocks with cells_per_result / partial flags)
 
 func scanWireUnit(c scanCfg) *explore.Unit {
+	u, _ := scanWireUnitObs(c)
+	return u
+}
+
+func scanWireUnitObs(c scanCfg) (*explore.Unit, *scanObs) {
 	out := &scanObs{}
 	u := &explore.Unit{Name: "wire|" + c.String(), Bound: 0, Opt: vrt.Options{MaxSteps: 120000}}
 	u.Body = func() {
@@ -669,6 +686,15 @@ func scanWireUnit(c scanCfg) *explore.Unit {
 			panic(err)
 		}
 		s := w.client.Scan(sc)
+		out.startStep = vrt.Steps()
+		if c.endKind == "cancel-at-step" {
+			// the context ends at that scheduling step, whatever the scan is doing then
+			ss.noChoice = true
+			vrt.GoNamed("h:canceller", func() {
+				vrt.AwaitFirst("h:cancel-at-step", func() bool { return c.endAt >= 0 && vrt.Steps() >= c.endAt })
+				cancel()
+			})
+		}
 		for i := 0; i < 200; i++ {
 			if c.endKind == "close" && i == c.endAt {
 				s.Close()
@@ -691,6 +717,7 @@ func scanWireUnit(c scanCfg) *explore.Unit {
 			}
 			out.got = append(out.got, fmtResult(r))
 		}
+		out.endStep = vrt.Steps()
 		for i := 0; i < 2; i++ {
 			_, e := s.Next()
 			out.afterEOF = append(out.afterEOF, e)
@@ -698,6 +725,16 @@ func scanWireUnit(c scanCfg) *explore.Unit {
 		s.Close()
 		vrt.Sleep(time.Hour)
 		out.open = len(ss.open)
+		if c.endKind == "cancel-at-step" {
+			// a region scanner whose opening request was still in flight when the context
+			// ended has an id the client never learned; only the ones it has used count
+			out.open = 0
+			for id := range ss.open {
+				if ss.usedIDs[id] {
+					out.open++
+				}
+			}
+		}
 		w.client.Close()
 		vrt.Sleep(10 * time.Minute)
 		cancel()
@@ -716,7 +753,37 @@ func scanWireUnit(c scanCfg) *explore.Unit {
 		}
 		return fmt.Sprintf("wire req=%d opened=%d rows=%d", out.sim.requests, out.sim.opened, len(out.got))
 	}
-	return u
+	return u, out
+}
+
+// scanCancelAtStepUnits: the scan's context ends at every scheduling step of a thread that
+// runs client code between the first Next and the end of the scan (default chunking).
+func scanCancelAtStepUnits(base scanCfg, thorough bool) []*explore.Unit {
+	probe := base
+	probe.endKind, probe.endAt = "cancel-at-step", -1
+	pu, po := scanWireUnitObs(probe)
+	vrt.Tracing = true
+	res, _ := explore.RunOnce(pu, nil)
+	vrt.Tracing = false
+	var units []*explore.Unit
+	for i, line := range res.Trace {
+		k := res.TraceSteps[i]
+		if k < po.startStep || harnessThread(strings.SplitN(line, " ", 2)[0]) && !strings.Contains(line, ":main ") {
+			continue
+		}
+		if k > po.endStep {
+			break
+		}
+		e := base
+		e.endKind, e.endAt = "cancel-at-step", k
+		u := scanWireUnit(e)
+		u.Bound = 1
+		if thorough {
+			u.Bound = 2
+		}
+		units = append(units, u)
+	}
+	return units
 }
 
 func scanWireUnits(thorough bool, endings bool) []*explore.Unit {
@@ -748,6 +815,9 @@ func scanWireUnits(thorough bool, endings bool) []*explore.Unit {
 									e.endKind, e.endAt = kind, at
 									units = append(units, scanWireUnit(e))
 								}
+							}
+							if ncells == 2 && len(bounds) == 1 && rng[0] == "" {
+								units = append(units, scanCancelAtStepUnits(base, thorough)...)
 							}
 						}
 					}
